@@ -71,4 +71,7 @@ MUTANTS = [
         "            if self._dispatch_queue.qsize() == 0:\n                self._dispatcher_thread_trigger.clear()\n                continue\n\n"
         "            while self._dispatch_queue.qsize() > 0:",
     ),
+    # secsgem/common/serial_connection.py, reached through the simulated serial ports (a quarter of the generated cases)
+    ("serial-single-bytes-dropped", "secsgem/common/serial_connection.py", "            if len(data) > 0:", "            if len(data) > 1:"),
+    ("serial-write-drops-last-byte-of-blocks", "secsgem/common/serial_connection.py", "        self._port.write(data)", "        self._port.write(data if len(data) < 20 else data[:-1])"),
 ]
